@@ -293,6 +293,95 @@ def r2_ctor_subset_decoder(ctx):
            "Context::new accepts %s, decoder %s" % (panics._fmt(acc), panics._fmt(got)), d, agg[0]["sp"]["at"])
 
 
+_NOISE = {"into", "from", "try_from", "try_into", "clone", "branch", "from_residual", "read_u8", "read_u16", "read_u32", "read_u64",
+          "read_usize", "read_from", "read_vec", "read_many", "to_string", "len", "unwrap", "expect", "map_err", "deref", "borrow",
+          "source", "self", None, ""}
+DECODER_ONLY_REJECTIONS = {
+    ("Context", "num_modulus_bytes"): "constructor-built contexts take the modulus bytes from B::get_modulus_le_bytes(), which is never empty",
+}
+
+
+def _value_features(f, op, pos, seen=None, depth=0):
+    """names the value of `op` is computed from: accessor calls, named locals, fields; reader calls
+    (anything taking the byte source) are leaves, so values read earlier from the same source do not
+    leak in."""
+    out = set()
+    l = op_local(op)
+    if l is None or depth > 14:
+        return out
+    seen = seen if seen is not None else set()
+    pl = op_place(op)
+    if pl:
+        out |= set(ir.place_fields(pl))
+    if l in seen:
+        return out
+    seen.add(l)
+    if f.local_name(l):
+        out.add(f.local_name(l))
+    for d in f.reaching_defs(l, pos):
+        if d["kind"] == "assign":
+            for o in ir.rv_operands(d["rv"]):
+                if o[0] in ("cp", "mv", "pl"):
+                    oo = o if o[0] != "pl" else ["cp", o[1]]
+                    out |= _value_features(f, oo, (d["bb"], d.get("si", 0)), seen, depth + 1)
+        elif d["kind"] == "call":
+            t = d["term"]
+            c = callee_of(t)
+            nm = (c or {}).get("name")
+            out.add(nm)
+            reader = (c or {}).get("trait") == "winter_utils::serde::byte_reader::ByteReader" or nm in ("read_from",)
+            if not reader:
+                for a in t["a"]:
+                    out |= _value_features(f, a, (d["bb"], f.INF), seen, depth + 1)
+    return out
+
+
+def _cmp_features(f, cs):
+    out = set()
+    for o in (cs["a"], cs["b"]):
+        out |= _value_features(f, o, (cs["bb"], f.INF))
+    return {x for x in out if x not in _NOISE and not str(x).isdigit() and x not in ("val", "residual", "e", "err")}
+
+
+def _rejecting_cmps(f, targets_ok, reject_blocks=None):
+    """comparison sites one of whose outcomes cannot reach an accepting exit: [(site, features)]."""
+    from ..patterns import cmp_sites
+    out = []
+    for cs in cmp_sites(f):
+        for c in f.bool_checks_of_local(cs["local"]):
+            t_ok = any(f.can_reach(t, targets_ok) for _, t in c["true_edges"])
+            f_ok = any(f.can_reach(t, targets_ok) for _, t in c["false_edges"])
+            if t_ok != f_ok:
+                out.append((cs, _cmp_features(f, cs)))
+                break
+    return out
+
+
+def r2c_rejection_counterparts(ctx):
+    """a decoder that fills the struct itself (Context::read_from) may reject, besides errors of the
+    sub-decoders, only on conditions that the public constructor also rejects: every rejecting
+    comparison of the decoder must mention only quantities that some rejecting comparison (assert)
+    of the constructor mentions."""
+    p = ctx.p
+    d = p.fn("<winter_air::proof::context::Context as winter_utils::serde::Deserializable>::read_from")
+    c = p.fn("winter_air::proof::context::Context::new")
+    dec = _rejecting_cmps(d, d.ok_exit_blocks())
+    cto = _rejecting_cmps(c, c.return_blocks())
+    if len(dec) < 3 or len(cto) < 3:
+        raise AnchorLost("Context: expected >= 3 rejecting comparisons in decoder and constructor, found %d / %d" % (len(dec), len(cto)))
+    for cs, feats in dec:
+        key = feats - {"trace_info", "options"}
+        if not key:
+            continue
+        exc = [n for (ty, n) in DECODER_ONLY_REJECTIONS if ty == "Context" and n in key]
+        hit = any(key <= cf for _, cf in cto)
+        ok = hit or bool(exc)
+        ctx.ob("R2", "decoder-rejection-has-ctor-counterpart:Context:%s" % ",".join(sorted(key)), ok,
+               ("Context::new rejects on the same quantities" if hit else "decoder-only by design: " + DECODER_ONLY_REJECTIONS[("Context", exc[0])]) if ok else
+               "Context::read_from rejects on %s, which Context::new never checks: values the constructor accepts fail to decode" % sorted(key),
+               d, cs["at"])
+
+
 def r2b_relational(ctx, rule="R2", report=("ctor-accepts-decoder-rejects", "decoder-accepts-ctor-rejects")):
     """cell decomposition of the decoded integers by the constants in the guards of decoder and
     constructor; on every representative point the two verdicts must agree."""
@@ -357,14 +446,20 @@ def r2b_relational(ctx, rule="R2", report=("ctor-accepts-decoder-rejects", "deco
 WRITER_CAST_REASONS = {
     ("FriProof", "layers"): "number of FRI layers <= log2(domain size) <= 64",
     ("FriProof", "remainder"): "remainder bytes = (remainder_max_degree + 1 <= 256) elements * ELEMENT_BYTES <= 48",
-    ("OodFrame", "trace_states"): "1 + 2 * (<= 255 columns) * ELEMENT_BYTES (<= 48) bytes < 65536",
-    ("OodFrame", "quotient_states"): "1 + 2 * (composition columns, bounded by the AIR's degrees) * ELEMENT_BYTES < 65536",
+    ("OodFrame", "trace_states"): "set_trace_states, the only writer of the field besides read_from (read_u16), asserts len() <= 65535",
+    ("OodFrame", "quotient_states"): "set_quotient_states, the only writer of the field besides read_from (read_u16), asserts len() <= 65535",
     ("FriProofLayer", "values"): "queried values of one layer: <= 255 positions * 16 * 48 bytes",
     ("FriProofLayer", "paths"): "one batch Merkle proof over <= 255 positions of depth <= 64",
     ("Context", "field_modulus_bytes"): "asserted < 255 on the line above",
     ("Commitments", "0"): "asserted < u16::MAX on the line above",
     ("TraceInfo", "trace_meta"): "new_multi_segment asserts trace_meta.len() <= 65535",
     ("TraceInfo", "trace_length"): "ilog2 of a usize <= 63",
+}
+
+
+WRITER_CAST_REQUIRES = {
+    ("OodFrame", "trace_states"): {"kind": "err-guard", "func": "winter_air::proof::ood_frame::OodFrame::set_trace_states", "lhs": "len", "rel": "Gt", "rhs": "65535"},
+    ("OodFrame", "quotient_states"): {"kind": "err-guard", "func": "winter_air::proof::ood_frame::OodFrame::set_quotient_states", "lhs": "len", "rel": "Gt", "rhs": "65535"},
 }
 
 
@@ -391,6 +486,11 @@ def r3_writer_casts(ctx):
                     if iv is not None and dst_t[0] <= iv[0] and iv[1] <= dst_t[1]:
                         ctx.ob("R3", "writer-cast:%s.%s" % (short, fld), True,
                                "`%s as %s` with value in %s (constructor invariant)" % (names, s["rv"][3], panics._fmt(iv)), w, s["sp"]["at"])
+                    elif (short, fld) in WRITER_CAST_REASONS and (short, fld) in WRITER_CAST_REQUIRES:
+                        g_ok, g_how = panics.check_requires(p, w, None, WRITER_CAST_REQUIRES[(short, fld)])
+                        ctx.ob("R3", "writer-cast:%s.%s" % (short, fld), g_ok,
+                               "reviewed: %s [re-verified: %s]" % (WRITER_CAST_REASONS[(short, fld)], g_how) if g_ok else
+                               "`%s as %s` may truncate: %s" % (names, s["rv"][3], g_how), w, s["sp"]["at"])
                     elif (short, fld) in WRITER_CAST_REASONS:
                         ctx.ob("R3", "writer-cast:%s.%s" % (short, fld), True,
                                "reviewed: " + WRITER_CAST_REASONS[(short, fld)], w, s["sp"]["at"], nontrivial=False)
@@ -413,5 +513,6 @@ def run(ctx):
     ctx.guard("R1", r1_enums)
     ctx.guard("R2", r2_ctor_subset_decoder)
     ctx.guard("R2", r2b_relational)
+    ctx.guard("R2", r2c_rejection_counterparts)
     ctx.guard("R3", r3_writer_casts)
     ctx.assume("equality of decoded values for interior inputs and 'same verdict after decode' are behavioural and not decided")
